@@ -199,7 +199,14 @@ func ruleC06Atomic(cx *Ctx) {
 				detail := fmt.Sprintf("%d report(s) %v", len(ats), ats)
 				if ok {
 					e := ats[0]
-					ok = e.Args[0] == "Key("+c.cur+")" && e.Args[1] == "Value("+c.cur+")" && e.Args[2] == want
+					// the removed node, or a term proven pointer-identical to it on this path (the key read once from the
+					// node the computation was keyed by, after the identity test)
+					keyOK, valOK := false, false
+					for _, al := range aliasesOf(o, c.cur) {
+						keyOK = keyOK || e.Args[0] == "Key("+al+")"
+						valOK = valOK || e.Args[1] == "Value("+al+")"
+					}
+					ok = keyOK && valOK && e.Args[2] == want
 					detail = "reported " + e.String() + ", expected cause " + want
 				}
 				if !decided {
